@@ -132,12 +132,12 @@ def run_shape(shape):
     fac = {"adjacency": z3.RealVal(1), "border_len": f * f, "center_distances": f}
     pq = {"adjacency": padj, "border_len": pbor, "center_distances": pdis}
     for path in eng.explore(body):
-        acc.paths += 1
+        acc.begin(prover, path)
         if path.kind == "exc":
             acc.structural("no_exception", False, detail=repr(path.value) + (path.tb or "")[-600:], cex={"kind": "exception", "exc": type(path.value).__name__, "model": _model(path)})
             continue
-        if acc.reachable is None:
-            acc.reachable = prover.satisfiable(path.premises) == "sat"
+        if acc.reachable is not True:
+            acc.reach(prover.satisfiable(path.premises))
         A, B, D, V, ln = path.value
         mats = {"adjacency": A, "border_len": B, "center_distances": D}
         ok_shape = all(tuple(M.shape) == (n, n) for M in mats.values()) and len(V) == n and ln == n
